@@ -21,6 +21,8 @@ type Ctx struct {
 	// OnPoll, when set, is called at every poll with the 0-based poll index,
 	// before the channel is returned.
 	OnPoll func(i int64)
+	// OnCancel, when set, is called once when the context gets cancelled.
+	OnCancel func()
 }
 
 // New returns a context that is cancelled at poll index cancelAt (<0: never).
@@ -45,8 +47,14 @@ func (c *Ctx) Cancel() {
 	c.once.Do(func() {
 		atomic.StoreInt32(&c.closed, 1)
 		close(c.done)
+		if c.OnCancel != nil {
+			c.OnCancel()
+		}
 	})
 }
+
+// Chan returns the Done channel without counting a poll.
+func (c *Ctx) Chan() <-chan struct{} { return c.done }
 
 func (c *Ctx) Cancelled() bool { return atomic.LoadInt32(&c.closed) == 1 }
 
